@@ -1,23 +1,23 @@
 SPECIFICATION Spec
 CONSTANTS
-  MaxLen = 4
+  MaxLen = 5
   CapC = 40
   Eps = 2
-  Heights = {4, 5, 7, 8}
+  Heights = {5}
   ForkH = 8
   LimitH = 5
   Lim0 = 3
   Lim1 = 4
   Ns = {1, 2, 3, 4}
-  Classes = {"s", "h", "n", "o"}
-  MaxBig = 1
-  MaxBl = 1
-  MaxEx = 0
-  MaxGrp = 2
-  Pres = {0, 1}
-  Bls = {TRUE, FALSE}
-  Exs = {FALSE}
-  Ops = {"Pack"}
+  Classes = {"s"}
+  MaxBig = 0
+  MaxBl = 0
+  MaxEx = 2
+  MaxGrp = 3
+  Pres = {0}
+  Bls = {FALSE}
+  Exs = {TRUE, FALSE}
+  Ops = {"Expire"}
   EmitOn = FALSE
 VIEW view
 INVARIANTS TypeOK CountSizeGroupOrder SkipIsRemoval Greedy ExpireInv
